@@ -4,6 +4,7 @@ import (
 	"bytes"
 	"encoding/json"
 	"fmt"
+	"go/token"
 	"go/types"
 	"os"
 	"os/exec"
@@ -38,7 +39,8 @@ func (p *Program) LoadConsts() error {
 		wantPkg[pp] = true
 	}
 	// sema constants are read by interpreter code
-	for _, extra := range []string{cadenceMod + "/sema", cadenceMod + "/fixedpoint", cadenceMod + "/values", cadenceMod + "/common"} {
+	for _, extra := range []string{cadenceMod + "/sema", cadenceMod + "/fixedpoint", cadenceMod + "/values", cadenceMod + "/common",
+		"github.com/onflow/fixed-point"} {
 		wantPkg[extra] = true
 	}
 	pkgName := map[string]string{}
@@ -104,6 +106,16 @@ func (p *Program) LoadConsts() error {
 	}
 	mainSrc.WriteString(")\n\nfunc main() {\n\temit := func(n, v string) { fmt.Printf(\"%s\\t%s\\n\", n, v) }\n")
 	for i, pp := range pkgPaths {
+		if !strings.HasPrefix(pp, cadenceMod) {
+			for _, g := range byPkg[pp] {
+				base := strings.SplitN(strings.SplitN(g.name, ".", 2)[0], "->", 2)[0]
+				if !token.IsExported(base) || g.big || ifaceVars[pp+"."+g.name] || ptrFields[pp+"."+g.name] {
+					continue
+				}
+				fmt.Fprintf(&mainSrc, "\temit(%q, fmt.Sprint(p%d.%s))\n", pp+"."+g.name, i, g.name)
+			}
+			continue
+		}
 		fmt.Fprintf(&mainSrc, "\tp%d.VerifDumpConsts(emit)\n", i)
 		var src bytes.Buffer
 		fmt.Fprintf(&src, "package %s\n\nimport (\n\tverifFmt \"fmt\"\n\tverifBig \"math/big\"\n)\n\nvar _ = verifFmt.Sprint\nvar _ *verifBig.Int\n\n", pkgName[pp])
